@@ -26,6 +26,8 @@ inductive Step (ρ α : Type)
   | next (a : α) (s : St)
   | done (v : ρ) (s : St)
   | pidx (s : St)
+  | palloc (s : St)   -- `unwrap_with_msg()` on `Err(ReserveError)`: the infallible API panics with the error's message
+  | pcb (s : St)      -- user code (an iterator's `next`, a predicate, a `Display` impl) panicked
   | ub (u : UB)
 
 def M (ρ α : Type) := St → Step ρ α
@@ -37,6 +39,8 @@ def M (ρ α : Type) := St → Step ρ α
   | .next a s' => f a s'
   | .done v s' => .done v s'
   | .pidx s' => .pidx s'
+  | .palloc s' => .palloc s'
+  | .pcb s' => .pcb s'
   | .ub u => .ub u
 
 /-- `return v` -/
@@ -48,6 +52,8 @@ def M (ρ α : Type) := St → Step ρ α
   | .next a s' => .next a s'
   | .done v s' => .next v s'
   | .pidx s' => .pidx s'
+  | .palloc s' => .palloc s'
+  | .pcb s' => .pcb s'
   | .ub u => .ub u
 
 @[inline] def alarm {ρ α} (u : UB) : M ρ α := fun _ => .ub u
@@ -89,6 +95,12 @@ def ReserveError : ReserveErrorT := .mk
   match r with
   | .ok a => bind (f a) fun b => pure (.ok b)
   | .err => pure .err
+
+/-- `Result::unwrap_with_msg()` of the infallible API: `Err(ReserveError)` panics with the error's message -/
+@[inline] def Rs.rs_unwrap_with_msg {ρ α} (r : Rs α) : M ρ α := fun s =>
+  match r with
+  | .ok a => .next a s
+  | .err => .palloc s
 
 /-! ## `usize` -/
 
@@ -399,6 +411,8 @@ def onRepr {ρ α} (other : Handle) (m : M ρ α) : M ρ α := fun s =>
   | .next a s' => .next a { s' with self := s.self }
   | .done v s' => .done v { s' with self := s.self }
   | .pidx s' => .pidx { s' with self := s.self }
+  | .palloc s' => .palloc { s' with self := s.self }
+  | .pcb s' => .pcb { s' with self := s.self }
   | .ub u => .ub u
 
 /-! ## Constants the source names -/
@@ -413,22 +427,23 @@ def LastByte.StaticMarker : Nat := Gen.staticMarker
 def runUnit (m : M (Rs Unit) (Rs Unit)) (rf : Refuse) (st : List Bytes) (hp : Heap) (r : Handle) : Res Unit :=
   match m ⟨rf, st, hp, r⟩ with
   | .next (.ok _) s | .done (.ok _) s => .ok () s.hp s.self
-  | .next .err s | .done .err s => .err s.hp s.self
+  | .next .err s | .done .err s | .palloc s => .err s.hp s.self
   | .pidx s => .pidx s.hp s.self
+  | .pcb s => .pcb s.hp s.self
   | .ub u => .ub u
 
 /-- a method returning `()` -/
 def runVoid (m : M Unit Unit) (rf : Refuse) (st : List Bytes) (hp : Heap) (r : Handle) : Except UB (Heap × Handle) :=
   match m ⟨rf, st, hp, r⟩ with
   | .next _ s | .done _ s => .ok (s.hp, s.self)
-  | .pidx _ => .error .oob
+  | .pidx _ | .palloc _ | .pcb _ => .error .oob
   | .ub u => .error u
 
 /-- a function returning a value, `self` untouched -/
 def runVal {α} (m : M α α) (rf : Refuse) (st : List Bytes) (hp : Heap) (r : Handle) : Except UB (α × Heap) :=
   match m ⟨rf, st, hp, r⟩ with
   | .next v s | .done v s => .ok (v, s.hp)
-  | .pidx _ => .error .oob
+  | .pidx _ | .palloc _ | .pcb _ => .error .oob
   | .ub u => .error u
 
 /-! ## Outcomes of translated functions in the hand model's vocabulary -/
@@ -436,27 +451,32 @@ def runVal {α} (m : M α α) (rf : Refuse) (st : List Bytes) (hp : Heap) (r : H
 /-- the outcome of a `Result<(), ReserveError>` method, as the hand model's `Res Unit` -/
 def resOf : Step (Rs Unit) (Rs Unit) → Res Unit
   | .next (.ok _) s | .done (.ok _) s => .ok () s.hp s.self
-  | .next .err s | .done .err s => .err s.hp s.self
+  | .next .err s | .done .err s | .palloc s => .err s.hp s.self
   | .pidx s => .pidx s.hp s.self
+  | .pcb s => .pcb s.hp s.self
   | .ub u => .ub u
 
 /-- the outcome of a method returning `()` -/
 def resV : Step Unit Unit → Res Unit
   | .next _ s | .done _ s => .ok () s.hp s.self
   | .pidx s => .pidx s.hp s.self
+  | .palloc s => .err s.hp s.self
+  | .pcb s => .pcb s.hp s.self
   | .ub u => .ub u
 
 /-- outcome of a method returning `Result<char, ReserveError>`; the character as its bytes -/
 def resOfChr : Step (Rs Chr) (Rs Chr) → Res Bytes
   | .next (.ok c) s | .done (.ok c) s => .ok c.b s.hp s.self
-  | .next .err s | .done .err s => .err s.hp s.self
+  | .next .err s | .done .err s | .palloc s => .err s.hp s.self
   | .pidx s => .pidx s.hp s.self
+  | .pcb s => .pcb s.hp s.self
   | .ub u => .ub u
 
 def resOfOptChr : Step (Rs (Option Chr)) (Rs (Option Chr)) → Res (Option Bytes)
   | .next (.ok c) s | .done (.ok c) s => .ok (c.map (·.b)) s.hp s.self
-  | .next .err s | .done .err s => .err s.hp s.self
+  | .next .err s | .done .err s | .palloc s => .err s.hp s.self
   | .pidx s => .pidx s.hp s.self
+  | .pcb s => .pcb s.hp s.self
   | .ub u => .ub u
 
 end LS.Rt
